@@ -208,7 +208,7 @@ let to_phase = function L [fi; b] -> { M.ph_field = to_nat fi; M.ph_boost = to_o
 let build_equery fields mm tie pf pf2 pf3 =
   let mk = function
     | L [docs; boost; terms] ->
-        (match M.index_g false (nat_of_int 1000000) (to_docs docs) with
+        (match (let dd = to_docs docs in M.index_g false (nat_of_int (List.length dd + 1)) dd) with
          | M.AOk ix -> { M.ef_arr = M.of_index ix true; M.ef_boost = to_option to_z boost; M.ef_terms = nl terms }
          | _ -> raise (Parse_error "index failed"))
     | _ -> raise (Parse_error "field") in
@@ -221,6 +221,29 @@ let () =
     | _ -> raise (Parse_error "args"));
   register "spec_edismax" (function [n; fields; mm; tie; pf; pf2; pf3; idf] ->
       of_api (of_list of_q) (M.edismax_spec (to_idf idf) (to_nat n) (build_equery fields mm tie pf pf2 pf3))
+    | _ -> raise (Parse_error "args"))
+
+
+(* ---- storage state machine (C18) ---- *)
+let () =
+  register "store_run" (function [L ops] ->
+      (* ops: (index docs) | (foreign) ; returns per op the file number and blob length, then whether every
+         earlier index still loads to its own postings *)
+      let dir = ref [] in
+      let made = ref [] in
+      let outs = List.map (function
+        | L [A "index"; docs] ->
+            (match (let dd = to_docs docs in M.index_g false (nat_of_int (List.length dd + 1)) dd) with
+             | M.AOk ix ->
+                 let (d', m) = M.mm_create !dir ix.M.ix_posts in
+                 dir := d'; made := (m, ix.M.ix_posts) :: !made;
+                 let blob = (match List.rev d' with (_, b) :: _ -> b | [] -> []) in
+                 L [A "file"; of_n m.M.mm_file; A (string_of_int (List.length blob))]
+             | _ -> L [A "index-failed"])
+        | L [A "foreign"] -> dir := !dir @ [(None, [])]; L [A "foreign"]
+        | _ -> raise (Parse_error "store op")) ops in
+      let all_ok = List.for_all (fun (m, p) -> M.mm_load !dir m = Some p) !made in
+      L [L outs; of_bool all_ok; of_n (M.dir_count !dir)]
     | _ -> raise (Parse_error "args"))
 
 let () = main ()
